@@ -162,6 +162,15 @@ def cmd_check(prop, tier):
         case = runner.make_case(prop, seed, idx, tier)
         small, res, nruns = shrink.shrink(case, sig, int(os.environ.get("VERIF_SHRINK_BUDGET", "300")))
         if res is None:
+            # outcome depended on what the worker process had executed before (state that
+            # the library keeps outside the tracks object): accept a violation of the same
+            # property with another oracle, otherwise report the harness as unreliable
+            again = runner.run_case(case)
+            alt = [x for x in again["violations"] if x["property"] == sig[0]]
+            if alt:
+                sig = runner.signature(alt[0])
+                small, res, nruns = shrink.shrink(case, sig, int(os.environ.get("VERIF_SHRINK_BUDGET", "300")))
+        if res is None:
             print(f"HARNESS-ERROR: violation {sig} at idx {idx} did not reproduce in the parent process")
             rc = max(rc, 2)
             continue
